@@ -34,6 +34,16 @@ def handle1 (op : String) (args : List Sexp) : Option String := do
       match drange t0 t1 b with
       | .ok xs => pure ("ok " ++ renderTs xs)
       | .error e => pure ("err " ++ e.render)
+  | "crun", [t0, t1, b] =>
+      -- Calendar.drange(t0, t1, bump) for a bump that is not a 'kb' string delegates to drange (_drange.py:666-667)
+      let t0 ← t0.toInt?; let t1 ← t1.toInt?; let b ← bumpOf b
+      if unmodelled t0 b then none
+      match b with
+      | .period ps => if ps.getLast?.map (·.2) == some Per.b then none   -- bump[-1] == 'b': the table branch (C05)
+      | _ => pure ()
+      match drange t0 t1 b with
+      | .ok xs => pure ("ok " ++ renderTs xs)
+      | .error e => pure ("err " ++ e.render)
   | "bump", [t, .atom h] =>
       let t ← t.toInt?
       let s ← hexDecode h
